@@ -536,4 +536,32 @@ theorem rel_inside {base targ r : Str} (h : rel base targ = some r) (he : relEsc
                 cases ht : cleanCP targ
                 simp_all [CP.render]
 
+/-- the last byte of a `/`-join of non-empty slash-free elements is not `/` -/
+theorem joinSlash_getLast {cs : List Str} (hne : cs ≠ []) (h : ∀ c ∈ cs, c ≠ [] ∧ '/' ∉ c) :
+    (joinSlash cs).getLast? ≠ some '/' := by
+  induction cs with
+  | nil => exact absurd rfl hne
+  | cons a t ih =>
+    cases t with
+    | nil =>
+      have ⟨ha, hs⟩ := h a (by simp)
+      simp only [joinSlash]
+      intro e
+      have := List.mem_of_getLast? e
+      exact hs this
+    | cons b t' =>
+      simp only [joinSlash]
+      have ih' := ih (by simp) (fun c hc => h c (by simp [hc]))
+      have hb := (h b (by simp)).1
+      have hj : joinSlash (b :: t') ≠ [] := joinSlash_ne_nil hb
+      rw [List.getLast?_append]
+      cases hjl : (joinSlash (b :: t')) with
+      | nil => exact absurd hjl hj
+      | cons y ys =>
+        rw [hjl] at ih'
+        simp only [List.getLast?_cons_cons]
+        cases hq : (y :: ys).getLast? with
+        | none => simp at hq
+        | some z => rw [hq] at ih'; simpa using ih'
+
 end PathClean
